@@ -1188,7 +1188,7 @@ pub fn scan_tree() -> Tree {
 /// what drives the harnesses: the text of c20.rs (and of the family modules), comments stripped
 fn driver_text() -> String {
     let mut s = String::new();
-    for src in [include_str!("c20.rs"), include_str!("c20_more.rs"), include_str!("c20_mn.rs")] {
+    for src in [include_str!("c20.rs"), include_str!("c20_more.rs"), include_str!("c20_mn.rs"), include_str!("c20_bug.rs")] {
         s.push_str(&code_only(src));
         s.push('\n');
     }
